@@ -224,6 +224,9 @@ pub fn cases(tier: &str, accepted_token_texts: &[String]) -> Vec<Case> {
         );
         out.push(Case { family: "oddity", kind: Kind::Build(Input::single(t)) });
     }
+    for input in graphs::cycles_with_vftables() {
+        out.push(Case { family: "graph", kind: Kind::Build(input) });
+    }
     for t in accepted_token_texts {
         out.push(Case { family: "token_sequence", kind: Kind::Build(Input::single(t.clone())) });
     }
